@@ -7,24 +7,43 @@ import c16_interact
 
 LEVEL = "proof"
 CLAIM = dict(cat="proof", design="§3 C16",
-   text="PROVED in Coq (34 theorems, no axioms) for literal integer models on exact (dyadic / lattice) arithmetic: AMR keys and tree (AMRGridCell / AMRGrid): for every "
+   text="PROVED in Coq (59 theorems) for literal models. (1) Integer models on exact (dyadic / lattice) arithmetic, no axioms: AMR keys and tree (AMRGridCell / AMRGrid): for every "
         "tree = every refinement history (C16_amr_trees_are_histories) and every block count 1..1024 per axis (odd ones included) get_first_key / get_next_key "
         "enumerate every single cell exactly once in depth first order and end with the sentinel, get_key(position) returns the key of the one cell whose box "
         "contains the position, operator[] inverts it, volumes sum to the box volume, refine_cell replaces exactly one cell by its 8 children, keys stay below "
         "2^31 / 2^62 up to depth 10 (the limit of the 32 bit cell key); Morton 21-bit interleave is injective (explicit inverse) and < 2^63; Cartesian long "
-        "index <-> (ix,iy,iz) bijection, enumeration, containing cell, volumes, mutual neighbours with periodic wrap, is_inside wrap. Tie: extracted models vs "
-        "the real classes on every run (keys in enumeration order, levels, boxes, volumes, midpoint keys, position keys incl. cell faces, refine keys, index maps, "
-        "neighbour lists, wraps; doubles as bit patterns). CORRESPONDENCE ONLY (exploration evidence, not proved): Octree overlap / closest searches and "
-        "PointLocations closest / radius searches vs brute force, AMRGrid::set_ngbs neighbour pointers vs a geometric oracle. EXCLUDED: Voronoi grids, the legacy "
-        "photon traversal (CartesianDensityGrid / AMRDensityGrid::interact: path length / optical depth / absorbed-escaped clauses).",
-   note="Positions are lattice points at least as fine as the deepest cell; the correspondence runs on dyadic boxes where every binary64 operation of the code is exact. "
-        "Outside that (non-dyadic boxes, positions within an ulp of a face) the real code has defects that the check exhibits by default with concrete replays: "
-        "pointlocations_face_ulp (generalngbiterator indexes _grid[n]: segfault), amr_face_ulp (child index 2 -> _children[8], block index n), "
-        "cartesian_face_ulp (get_cell_indices returns n), octree_single_position (root leaf: uninitialised _child, search misses the only point); minimal patches "
-        "in hooks/c16_fix_*.patch. Ulp-level ties where the stored box of the returned cell misses the position by one ulp remain (no consistent-arithmetic fix). "
-        "AMRDensityGrid::get_largest_odd_factor(0) does not terminate (invalid input, noted only). Search structures: only the abstract pruning-soundness theorem "
-        "C16_search_pruning_partial and a one-axis distance lemma are proved.",
-   technique="Coq proofs over Z by induction on the tree / refinement history + extraction + differential correspondence; brute-force oracles for the search structures")
+        "index <-> (ix,iy,iz) bijection, enumeration, containing cell, volumes, mutual neighbours with periodic wrap, is_inside wrap. "
+        "(2) LEGACY PHOTON TRAVERSAL (C16_cart_*, C16_amr_*; real-number instance of models written once over a scalar type, standard real-number axioms only): "
+        "CartesianDensityGrid::interact (get_cell_indices, get_wall_intersection, Scorr correction, index update, is_inside with its periodic side effect on index AND position) "
+        "for ALL boxes, cell counts, periodicity flags, starts in the half open box, directions, non-negative opacities and positive targets: the credited lengths are >= 0 and the "
+        "photon ends at start + (their sum) * direction + whole box periods on periodic axes only (path_sum); every visit is a cell of the grid and the piece of the straight line "
+        "credited to it lies in its closed box (segments_in_cells); optical depth used = sum opacity * length = target when a cell is returned, = target - rest <= target when end() is "
+        "returned (tau_sum); a returned cell is the last visited cell and contains the final position (exactly when the target was reached before the wall, modulo a box period when "
+        "reached on a periodic wall) (absorbed_in_returned_cell); end() is returned only ON an open face, moving outward, target not exceeded (escaped_through_open_face); the final "
+        "position is in the closed box and is not moved along an axis whose faces the line does not reach (final_position_in_box, no_spurious_wrap); the immediate-leave error is "
+        "unreachable; nx+ny+nz+1 iterations suffice with open boundaries. AMRDensityGrid::interact, REPAIRED code (hooks/c16_fix_amr_interact.patch), for EVERY tree / block count / "
+        "periodicity: the same theorem family, built on proved models of AMRGrid::set_ngbs + AMRGridCell::set_ngbs (C16_amr_neighbour_pointers: none exactly at an open face, else a "
+        "valid same-or-coarser cell touching the face and covering the cell on the other axes), get_child(position) descent, periodic correction and get_cell(position) "
+        "(C16_amr_locate_containing_cell). The PINNED AMRDensityGrid::interact is REFUTED with binary64 witnesses (3 defects, each replayed on the real class every run). "
+        "Tie: extracted models vs the real classes on every run: keys in enumeration order, levels, boxes, volumes, position keys, refine keys, index maps, neighbour lists, wraps; "
+        "and the binary64 instance of the SAME interact definitions vs the real CartesianDensityGrid::interact / AMRDensityGrid::interact BIT FOR BIT (returned iterator, final "
+        "position, every changed mean intensity) on corpus + random photons (absorption in outermost cells heading outward / inward, starts on faces / edges / corners, axis aligned "
+        "and nearly aligned rays, periodic wraps incl. absorption right after the wrap, targets at cell-wall partial sums +- 1 ulp, 1-cell-thick grids, vacuum cells; AMR: several "
+        "refinement histories to depth 5, all periodicity flags), plus an exact-rational straight-line oracle for the property on every answer of the real code. "
+        "CORRESPONDENCE ONLY (exploration evidence, not proved): Octree overlap / closest searches and PointLocations closest / radius searches vs brute force. EXCLUDED: Voronoi grids "
+        "(incl. VoronoiDensityGrid::interact).",
+   note="Positions of part (1) are lattice points at least as fine as the deepest cell; its correspondence runs on dyadic boxes where every binary64 operation of the code is exact. "
+        "Traversal theorems are about exact real arithmetic; the binary64 instance is what is compared with the code (ExtrOCamlFloats extraction and the OCaml driver are trusted for the "
+        "tie only); update_integrals is abstracted to the visit list + the hydrogen mean intensity (C16_cart_J_exact); get_optical_depth for HAS_HELIUM without VARIABLE_ABUNDANCES. "
+        "AMR theorems assume a unit direction and are for the repaired code: the pinned AMRDensityGrid::interact has three defects which the check reports with minimal inputs until "
+        "hooks/c16_fix_amr_interact.patch is applied (or they are registered): amr_interact_absorbed_reported_escaped (photon absorbed in an outermost cell heading for the open face is "
+        "returned as end()), amr_interact_periodic_single_cell_hang (one cell along a periodic axis: interact never returns), amr_interact_periodic_wrong_child (crossing a periodic face "
+        "into a finer region continues in the child on the far side: wrong cell credited and returned). Partial: termination is proved only for open Cartesian boundaries (periodic "
+        "boxes of zero opacity loop forever in the real code too; AMR: fuel is a parameter of the theorems). Cells of zero density are traversed but not credited (update_integrals "
+        "skips them). Earlier defect probes (pointlocations_face_ulp, amr_face_ulp, cartesian_face_ulp, octree_single_position) stay on; ulp-level ties where the stored box of the "
+        "returned cell misses the position by one ulp remain. Search structures: only the abstract pruning-soundness theorem C16_search_pruning_partial and a one-axis distance lemma.",
+   technique="Coq proofs over Z (tree / history induction) and over R (literal ray-march models generic in the scalar type, neighbour geometry by induction on the cell path) + extraction + "
+             "bit-exact differential correspondence + exact-rational property oracle; brute-force oracles for the search structures")
 LAT = 10          # lattice bits per AMR block side
 CLAT = 16         # lattice units per Cartesian cell side
 MAXDEPTH = 8
@@ -905,9 +924,15 @@ def run(ck):
         "sets; the Coq side only has the abstract pruning-soundness theorem C16_search_pruning_partial",
         "CORRESPONDENCE ONLY as well: AMRGrid::set_ngbs neighbour pointers (same or coarser level, touch and cover the face, periodic wrap, same "
         "level neighbours point back) are checked by a geometric oracle on the real code's output, not modelled in Coq",
-        "NOT COVERED: Voronoi grids (C15 not applicable), the legacy photon traversal "
-        "CartesianDensityGrid::interact / AMRDensityGrid::interact (path / optical depth clauses of C16), AMRGrid::get_key(level, position), "
-        "create_cell on partially built trees",
+        "TRAVERSAL (CartesianDensityGrid::interact, AMRDensityGrid::interact): theorems over R for the literal models of Cxx/C16_InteractDefs.v "
+        "(AMR: the repaired code, flags true; unit direction); the binary64 instance of the same definitions is compared bit for bit with the real "
+        "classes (harness compiled -O1 -ffp-contract=off, PrimFloat extracted through ExtrOCamlFloats); the model flags of the AMR model follow the "
+        "code under test: they are set from three probes of the real class, and a pinned behaviour is reported as a violation",
+        "property oracle of the traversal = exact-rational straight line through the exact-rational cell walls, tolerance 1e-11 x box scale + "
+        "64 ulp / min|d_k| (conditioning of nearly axis aligned rays), optical depth within 1e-11; a start within that tolerance of a cell wall "
+        "is accepted for either neighbour (the code's walls are binary64 numbers)",
+        "NOT COVERED: Voronoi grids incl. VoronoiDensityGrid::interact (C15), termination of the traversal with periodic boundaries / on AMR grids, "
+        "AMRGrid::get_key(level, position), create_cell on partially built trees, get_total_emission",
         "defect probes (default on, each in a child process): pointlocations_face_ulp, amr_face_ulp, cartesian_face_ulp, octree_single_position; "
         "AMRDensityGrid::get_largest_odd_factor(0) loops forever (invalid input, noted only)",
     ]
